@@ -243,13 +243,16 @@ class Evaluator:
         self.t_impl, self.t_model = t1 - t0, t2 - t1
         res = []
         canon_m = getattr(mod, "canon_model", None)
+        canon_mw = getattr(mod, "canon_model_w", None)
         for c, i, m in zip(cases, impl, model):
             if "fail" in i:
                 res.append({"case": c, "impl_w": json.dumps(i["fail"]), "model_w": m, "diverges": True,
                             "oracle": "impl-run-failed:%s" % i["fail"][0], "key": None})
                 continue
             mw = m.strip()
-            if canon_m is not None:
+            if canon_mw is not None:
+                mw = canon_mw(c, mw)
+            elif canon_m is not None:
                 mw = to_wire(canon_m(c, from_wire(mw)))
             res.append({"case": c, "impl_w": i["w"], "model_w": mw, "diverges": i["w"] != mw, "oracle": i["o"], "key": i["k"]})
         return res
